@@ -362,6 +362,48 @@ def samecmd_case(item):
     return res
 
 
+def symlink_case(item):
+    """The target is named through a symbolic link to a directory elsewhere (proj/link -> ../other): the candidates are those of the
+    place the file really is in - for the build (which resolves the directory) and for redo-whichdo alike; the last entry that
+    redo-whichdo prints is the rule that builds the target."""
+    _, name, where, seed = item
+    pj = scen.Project({}, 'c13y')
+    top = os.path.realpath(pj.top)
+    anoms = []
+    obs = dict(commands=0)
+    try:
+        for d in ('proj', 'other'):
+            os.makedirs(os.path.join(top, d))
+        os.symlink('../other', os.path.join(top, 'proj', 'link'))
+        common.write_file(posixpath.join(top, 'proj', 'default.do'), SCRIPT % 'beside-the-link')
+        real_rule = {'other': posixpath.join(top, 'other', 'default.do'), 'above': posixpath.join(top, 'default.do')}[where]
+        common.write_file(real_rule, SCRIPT % 'real-place')
+        cwd = posixpath.join(top, 'proj')
+        spelled = 'link/' + name
+        r1, _ = pj.run(['redo-ifchange', spelled], cwd=cwd, verif_log=False)
+        obs['commands'] += 1
+        body = (common.read_file(posixpath.join(top, 'other', name)) or b'').decode('utf-8', 'replace')
+        kv = dict(l.split('=', 1) for l in body.split('\n') if '=' in l)
+        if r1.rc != 0 or kv.get('ID') != 'real-place':
+            anoms.append(dict(key='script-choice:through-a-symlinked-directory', what='redo-ifchange %s (link -> ../other) exit %s, built by %r; the rule of the real directory chain is %s'
+                              % (spelled, r1.rc, kv.get('ID'), posixpath.relpath(real_rule, top))))
+        r2, _ = pj.run(['redo-whichdo', spelled], cwd=cwd, verif_log=False)
+        obs['commands'] += 1
+        got = [posixpath.normpath(posixpath.join(cwd, l)) for l in r2.out.split('\n') if l]
+        last = os.path.realpath(got[-1]) if got else None
+        if r2.rc != 0 or last != os.path.realpath(real_rule):
+            anoms.append(dict(key='whichdo-order:through-a-symlinked-directory',
+                              what='redo-whichdo %s ends at %r (exit %s); the build used %s' % (spelled, got[-1:] and posixpath.relpath(got[-1], top), r2.rc, posixpath.relpath(real_rule, top))))
+    finally:
+        pj.close()
+    res = dict(verdict='violated' if anoms else 'held', nontrivial=True, shape=common.shash(list(item)),
+               sample=dict(kind='through-a-symlinked-directory', name=name, rule=where), obs=obs, sets=dict(chosen_kinds=['symlinked-directory:' + where]))
+    if anoms:
+        res['violations'] = anoms
+        res['replay'] = dict(kind='c13sym', item=list(item))
+    return res
+
+
 def direct_case(item):
     """possible_do_files called directly vs the reference, for enumerated names."""
     alphabet, maxlen, depth = item
@@ -419,6 +461,8 @@ def dispatch(item):
         return latedir_case(item[1:])
     if item[0] == 'samecmd':
         return samecmd_case(item[1:])
+    if item[0] == 'symlink':
+        return symlink_case(item)
     return cmd_case(item[1:])
 
 
@@ -427,7 +471,7 @@ RULE = ('command level: target paths at depth 0-3 (directory names with a space 
         'spelled in 4-8 ways (./, x/../, //, absolute, from sub-directories); redo-whichdo output and the ID/$1/$2/$3/cwd echoed by the '
         'executed script are compared with an independent reference written from the property text; then one mutation (add a higher-priority '
         'candidate / remove the chosen one / repeat) and the comparison again; fresh projects whose first command runs in proj/sub and asks for '
-        '../other/<name> (rule 0-2 levels above the target, a decoy default.do in proj/sub); targets whose directory is created by the rule itself (mkdir -p) and gets a higher-priority rule afterwards; two targets handled by one redo process (one command line, or one nested redo-ifchange) where the script of the first target installs a higher-priority default rule or the chosen rule removes itself: each look-up sees the candidates that exist at that moment. Direct level (clean and .././/-spelled paths): possible_do_files() for every basename over '
+        '../other/<name> (rule 0-2 levels above the target, a decoy default.do in proj/sub); targets whose directory is created by the rule itself (mkdir -p) and gets a higher-priority rule afterwards; a target named through a symbolic link to a directory elsewhere (the candidates are those of the real place, for the build and for redo-whichdo alike); two targets handled by one redo process (one command line, or one nested redo-ifchange) where the script of the first target installs a higher-priority default rule or the chosen rule removes itself: each look-up sees the candidates that exist at that moment. Direct level (clean and .././/-spelled paths): possible_do_files() for every basename over '
         'small alphabets up to a length bound x directory depth vs the same reference. Every case is non-trivial; distinct = parameter tuple.')
 ASSUME = ['ancestors of the scratch root contain no default*.do (checked at start-up)', 'targets whose spelling resolves to an existing directory are not generated']
 
@@ -453,6 +497,9 @@ def main(tier):
         for depth in (1, 2, 3):
             for where in ('specific', 'nearest', 'between'):
                 items.append(('latedir', n, depth, where, rnd.randrange(1000)))
+    for n in (NAMES[:4] if quick else NAMES):
+        for where in ('other', 'above'):
+            items.append(('symlink', n, where, rnd.randrange(1000)))
     for variant in ('installs', 'removes'):
         for how in ('ifchange', 'redo', 'nested'):
             for ext in (('x', 'tar.gz') if quick else ('x', 'tar.gz', 'a.b.c', 'y z')):
@@ -478,7 +525,7 @@ def replay(path):
     d = json.load(open(path))
     common.ensure_built()
     it = d['replay']['item']
-    r = samecmd_case(tuple(it)) if d['replay']['kind'] == 'c13same' else direct_case(tuple(it)) if d['replay']['kind'] == 'direct' else (outside_case(tuple(it)) if d['replay']['kind'] == 'c13out' else (latedir_case(tuple(it)) if d['replay']['kind'] == 'c13late' else cmd_case(tuple(it))))
+    r = symlink_case(tuple(it)) if d['replay']['kind'] == 'c13sym' else samecmd_case(tuple(it)) if d['replay']['kind'] == 'c13same' else direct_case(tuple(it)) if d['replay']['kind'] == 'direct' else (outside_case(tuple(it)) if d['replay']['kind'] == 'c13out' else (latedir_case(tuple(it)) if d['replay']['kind'] == 'c13late' else cmd_case(tuple(it))))
     print(r.get('verdict'), r.get('violations'))
     common.cleanup_scratch()
     if r.get('verdict') == 'violated':
